@@ -11,6 +11,7 @@ pub mod hang;
 pub mod rng;
 pub mod realconn;
 pub mod sess;
+pub mod trace;
 pub mod transport;
 
 #[cfg(not(any(miri, ivh_no_alloc_monitor)))]
